@@ -15,7 +15,7 @@ func C04(tier string) int {
 	type p struct{ k, words, T, delay int }
 	fam := []p{{1, 2, 8, 0}, {1, 3, 8, 0}, {2, 2, 7, 0}, {1, 2, 10, 2}}
 	if tier == "thorough" {
-		fam = []p{{1, 2, 12, 0}, {1, 3, 12, 0}, {1, 4, 10, 0}, {2, 2, 10, 0}, {2, 3, 10, 0}, {3, 2, 8, 0}, {3, 3, 8, 0}, {1, 2, 12, 3}, {1, 3, 12, 2}, {2, 2, 10, 2}}
+		fam = []p{{1, 2, 12, 0}, {1, 3, 12, 0}, {1, 4, 10, 0}, {2, 2, 10, 0}, {2, 3, 8, 0}, {3, 2, 8, 0}, {3, 3, 8, 0}, {1, 2, 12, 3}, {1, 3, 12, 2}, {2, 2, 10, 2}}
 	}
 	var cfgs []Config
 	for _, f := range fam {
